@@ -11,13 +11,13 @@ VARIABLES tl, tBad, tCnt
 H(s)  == HexToInt(s)
 HB(s) == HexToBytes(s)
 
-Classes == {"suite_ro", "suite_nu", "dst_1", "dst_254", "dst_255", "dst_256", "dst_257", "dst_long", "dst_empty", "msg_empty", "msg_long",
+Classes == {"suite_ro", "suite_nu", "dst_1", "dst_254", "dst_255", "dst_256", "dst_257", "dst_long", "dst_wide", "dst_empty", "msg_empty", "msg_long",
             "uni_len_32", "uni_len_48", "uni_len_64", "uni_len_other", "uni_ge_p", "uni_panic", "u_zero", "u_one", "u_pm1", "u_exceptional",
             "gx1_square", "gx1_nonsquare", "u_odd", "u_even", "y_flipped", "xmd_ok", "xmd_err", "xmd_len_edge", "xmd_ell_max", "xmd_vector",
             "iso_ok", "iso_exceptional", "swu_ok", "suite_vector", "result_identity", "pure"}
 
 DstClasses(d) == CASE Len(d) = 0 -> {"dst_empty"} [] Len(d) = 1 -> {"dst_1"} [] Len(d) = 254 -> {"dst_254"} [] Len(d) = 255 -> {"dst_255"}
-                   [] Len(d) = 256 -> {"dst_256"} [] Len(d) = 257 -> {"dst_257"} [] Len(d) >= 1000 -> {"dst_long"} [] OTHER -> {}
+                   [] Len(d) = 256 -> {"dst_256"} [] Len(d) = 257 -> {"dst_257"} [] Len(d) >= 65536 -> {"dst_long", "dst_wide"} [] Len(d) >= 1000 -> {"dst_long"} [] OTHER -> {}
 
 UClasses(u) ==
   LET zu2 == FMul(SwuZ, FSqr(u))
